@@ -370,6 +370,126 @@ def r033(report, g, lm):
     return rule
 
 
+def constructor_rule(report, M, rid):
+    """node constructors store the children the parser action hands them:
+    none replaces an argument by a part of it"""
+    am = M.astmodel
+    r = report.rule(rid, 'node constructors store the arguments of the '
+                    'parser actions unchanged (no argument is replaced by '
+                    'one of its own parts)', floor=30)
+    built = sorted({n.cls for oc in M.actions.all_outcomes()
+                    for n in oc.nodes})
+    for cls in built:
+        if cls not in am.classes:
+            continue
+        am.init_model(cls)
+        bad = []
+        for c in am.mro(cls):
+            bad.extend((c, rw) for rw in am.rewrites.get(c, []))
+        r.check(not bad, '%s constructor' % cls, '%s.__init__' % cls,
+                '%s.__init__ rewrites its argument `%s` (%s): the node no '
+                'longer stores the sub-tree the derivation dictates - two '
+                'different derivations build the same tree' % (
+                    bad[0][0] if bad else '', bad[0][1][0] if bad else '',
+                    bad[0][1][1] if bad else ''),
+                where='asttypes.py:%s.__init__' % (bad[0][0] if bad else
+                                                   cls))
+    return r
+
+
+def rejection_rule(report, M, rid):
+    """the only texts a parser action rejects are expression statements
+    that begin with the token `function` (ES5 12.4): every raising path of
+    every action is followed through its isinstance tests, and each step
+    from a node to one of its attributes must be the step to the node's
+    leftmost printed child"""
+    from engine.actions import Slot, AttrOf
+    D = M.definitions
+    r = report.rule(rid, 'actions reject only expression statements that '
+                    'begin with `function` (every raising path descends '
+                    'through leftmost children to a FuncExpr)', floor=2)
+
+    def first_term(cls):
+        for t in D.defs.get(cls, ()):
+            if t.kind in ('struct', 'layout') or (
+                    t.kind == 'attr' and t.cls == 'CommentsAttr'):
+                continue
+            return t
+        return None
+
+    def path_of(v):
+        attrs = []
+        while isinstance(v, AttrOf):
+            attrs.append(v.attr)
+            v = v.base
+        return v, attrs[::-1]
+    n = 0
+    for oc in M.actions.all_outcomes():
+        if oc.status == 'ok':
+            continue
+        n += 1
+        key = 'raise in %s' % oc.prod.func
+        construct = '%s: raises %s when %s' % (
+            oc.prod.text, (oc.raised or '')[:50], ' and '.join(
+                '%s%s' % ('' if b else 'not ', c) for c, b in oc.conds))
+        where = 'parsers/es5.py:%s' % oc.prod.func
+        if oc.prod.lhs != 'expr_statement':
+            r.fail(key, construct, 'a parser action rejects a text that '
+                   'the production %s derives; ES5 has no restriction '
+                   'there' % oc.prod.text, where=where)
+            continue
+        trues = [(v, ts) for v, ts, pol in oc.facts if pol]
+        if not trues:
+            r.fail(key, construct, 'the rejection does not depend on the '
+                   'expression: every expression statement on this path is '
+                   'refused', where=where)
+            continue
+        final, ftypes = trues[-1]
+        root, attrs = path_of(final)
+        problem = None
+        if not (isinstance(root, Slot) and root.idx == 1):
+            problem = 'the rejected value %r is not reached from the ' \
+                'expression p[1]' % (final,)
+        elif set(ftypes) != {'node:FuncExpr'}:
+            problem = 'rejects when %r is a %s, not only a FuncExpr' % (
+                final, '/'.join(t[5:] for t in ftypes))
+        else:
+            cur = root
+            for a in attrs:
+                classes = [ts for v, ts in trues if repr(v) == repr(cur)]
+                if not classes:
+                    problem = 'descends into .%s of %r without a class ' \
+                        'test' % (a, cur)
+                    break
+                for t in classes[-1]:
+                    cls = t[5:]
+                    for sub in [cls] + [c for c in M.astmodel.subclasses(
+                            cls) if c != cls and c in D.defs]:
+                        ft = first_term(sub)
+                        if ft is None or ft.kind != 'attr' or \
+                                ft.attr != a:
+                            problem = (
+                                'descends from a %s into its attribute '
+                                '`%s`, which is not the leftmost thing a '
+                                '%s prints (%s): a statement that begins '
+                                'with that and merely contains a function '
+                                'expression further right is rejected' % (
+                                    sub, a, sub, 'the text %r' % ft.value
+                                    if ft is not None and ft.kind == 'text'
+                                    else 'attribute %s' % getattr(
+                                        ft, 'attr', '?')))
+                            break
+                    if problem:
+                        break
+                if problem:
+                    break
+                cur = AttrOf(cur, a)
+        r.check(problem is None, key, construct, problem or '',
+                where=where)
+    report.count('%s: raising action paths' % rid, n)
+    return r
+
+
 def run(report, index, tier):
     M = models(index)
     from .c20 import guard_tokens, guard_transcriptions
@@ -395,6 +515,8 @@ def run(report, index, tier):
                   'tree shape: definition skeleton == production RHS')
     from .arrays import array_rule
     array_rule(report, index, M, 'R03.4e', bound=8, reference=True)
+    constructor_rule(report, M, 'R03.9')
+    rejection_rule(report, M, 'R03.10')
     report.trusted_base += [
         'CPython ast', 'ply.yacc LALR construction (library use on '
         'extracted productions)', 'transcription of ply.yacc.parse_grammar']
